@@ -18,7 +18,11 @@ from .c01 import VALUE
 CALLBACK_RX = re.compile(r'hooks\s*\.\s*(call|call_method)\s*\(|\.next\(hooks\)|\.next\(&mut hooks\)')
 
 F32_SRC = ('fn bad(a, b) { raise Error("boom"); }\ntry {\n  [3, 1, 2].sort(bad);\n  print("not raised");\n} catch e: Error {\n  print("caught");\n}\n')
-REPLAYS = {'ListSort': dict(kind='lay', source=F32_SRC, expect_stdout='caught\n')}
+F43_SRC = 'class A { str() { return 5; } }\ntry {\n  print(%s.str());\n} catch e: Error {\n  print("caught");\n}\n'
+REPLAYS = {'ListSort': dict(kind='lay', source=F32_SRC, expect_stdout='caught\n'),
+           'ListStr:returned': dict(kind='lay', source=F43_SRC % '[A(), 1]', expect_stdout='caught\n'),
+           'TupleStr:returned': dict(kind='lay', source=F43_SRC % '(A(), 1)', expect_stdout='caught\n'),
+           'MapStr:returned': dict(kind='lay', source=F43_SRC % '{1: A()}', expect_stdout='caught\n')}
 
 
 def _world():
@@ -33,6 +37,11 @@ def _world():
         raises = e_.fork_bool(z3.Bool(f'callback_raises_{k}'))
         e_.path_state['callbacks'].append((c.norm, raises))
         e_.path_state['events'].append(('hook',))
+        if not raises and c.norm.endswith('::call'):
+            # remember what was called: a class handed to the native as its error class produces an error INSTANCE, not a raise
+            val = e_.fresh(VALUE, e_.fresh_name('callback_value'))
+            e_.path_state.setdefault('call_results', []).append((a[1], val))
+            return EnumV('Result<Value, LyError>', 0, {'Ok': {0: Cell(val)}}, None, RES)
         if raises:
             er = EnumV('LyError', le.vindex['Err'], {'Err': {0: Cell(Opaque('Instance', f'raised{k}'))}}, None, le)
             return EnumV('Result<Value, LyError>', 1, {'Err': {0: Cell(er)}}, None, RES)
@@ -100,7 +109,7 @@ def k4_callback_errors(res, tier):
             continue
         src = P.items.files[ent['file']]
         mm = re.search(r'^impl LyNative for ' + ent['struct'] + r'\b.*?^\}', src, re.M | re.S)
-        if not mm or not CALLBACK_RX.search(mm.group(0)):
+        if not mm or not (CALLBACK_RX.search(mm.group(0)) or 'hooks.call(' in mm.group(0).replace('\n', ' ').replace('  ', '')):
             continue
         f = _call_fn(P, ent['file'], ent['struct'])
         if f is not None:
@@ -152,6 +161,17 @@ def k4_callback_errors(res, tier):
             else:
                 r = e.call(f, [Ref(Cell(me)), hooks])
             cbs = e.path_state.get('callbacks', [])
+            # an error object the native built by calling its own error class must be raised, not returned as the result
+            if kind == 'native' and isinstance(r, EnumV) and _result_is_err(e, r) is False and sds and any(n == 'error' for n, _ in sds[0].fields):
+                from .c07 import _flat
+                ei = [i for i, (n, _) in enumerate(sds[0].fields) if n == 'error'][0]
+                err_cls = _flat(e, me.field(e, ei, sds[0].fields[ei][1]).get(e))
+                out = _flat(e, e.payload0(r, 'Ok'))
+                for callee, val in e.path_state.get('call_results', []):
+                    same_callee = e.is_valid(z3.And(*[x == y for x, y in zip(_flat(e, callee), err_cls)]))
+                    same_val = e.is_valid(z3.And(*[x == y for x, y in zip(_flat(e, val), out)]))
+                    if same_callee:
+                        e.check(not same_val, f'{label}: the error object built from the native\'s error class is raised, not handed back as the result')
             raised = [n for n, rz in cbs if rz]
             if raised:
                 e.check(_result_is_err(e, r) is True, f'{label}: an error raised by a callback ({raised[0].split("::")[-1]}) ends the native with that error',
@@ -169,7 +189,10 @@ def k4_callback_errors(res, tier):
                 res.checks += 1
                 if not okc and lab not in seen:
                     seen.add(lab)
-                    res.fail(f'C04.K4:{label}: callback error dropped', lab + ' fails: the native returns Ok although a callback raised', info, replay=REPLAYS.get(label))
+                    if 'handed back as the result' in lab:
+                        res.fail(f'C04.K4:{label}: error object returned instead of raised', lab + ' fails', info, replay=REPLAYS.get(label + ':returned'))
+                    else:
+                        res.fail(f'C04.K4:{label}: callback error dropped', lab + ' fails: the native returns Ok although a callback raised', info, replay=REPLAYS.get(label))
         res.absorb(e)
         res.paths += len(results)
         oks = [r for r in results if r.kind == 'ok' and isinstance(r.info, dict)]
